@@ -261,7 +261,8 @@ class Cleanup:
         text = Cleanup.suppress_sys_path_injection(text)
         text = text.replace("\t", "    ")
         lines = iter(text.split("\n"))
-        for token_info in generate_tokens(lambda: next(lines) + "\n"):
+        tokens = list(generate_tokens(lambda: next(lines) + "\n"))
+        for (i, token_info) in enumerate(tokens):
             (token, string, (start_row, start_col), (end_row, end_col), _) = token_info
             if start_row > previous_end_row:
                 previous_end_col = 0
@@ -271,7 +272,11 @@ class Cleanup:
                 if n == 0:
                     continue
                 result.append(string)
-            elif token == STRING and previous_token in (INDENT, DEDENT, NEWLINE):
+            elif (
+                token == STRING
+                and previous_token in (INDENT, DEDENT, NEWLINE)
+                and tokens[i + 1][0] == NEWLINE
+            ):
                 result.append("pass\n")  # replace the docstring by a pass statement
             else:
                 result.append(string)
